@@ -25,12 +25,13 @@ Record obj := Obj { ouid : N; oid : atom; onode : N; ocont : N }.
 
 (* fault context of one attempt: which objects (by identity) have been put into a state in
    which their save() raises, and what the default scene has been set to (None: left alone) *)
-Record faults := Faults { fbad : N -> option exn; fscene : option (option atom) }.
+Record faults := Faults { fbad : N -> option exn; fscene : option (option (N * atom)) }.
 Definition no_fault : faults := Faults (fun _ => None) None.
-Definition scene_in (fc : faults) (m : option atom) : option atom :=
+Definition scene_in (fc : faults) (m : option (N * atom)) : option (N * atom) :=
   match fscene fc with Some sc => sc | None => m end.
 Record lib := Lib { ltag : atom; lrec : bool; larr : list obj }.
-Record model := Model { masset : N; mlibs : list lib; mscene : option atom }.
+(* mscene: identity and id of the default scene object (doc.scene) *)
+Record model := Model { masset : N; mlibs : list lib; mscene : option (N * atom) }.
 
 Record rchild := RC { ruid : N; rtag : atom; rsub : N; rkids : list (N * N) }.
 Record state := St { smodel : model; stree : list rchild }.
@@ -103,12 +104,24 @@ Definition refresh_kids (saved : list obj) (kids : list (N * N)) : list (N * N) 
                 | None => k
                 end) kids.
 
+(* `for extralib in findall(tag)[1:]: root.remove(extralib)`: every element of that name after
+   the first goes *)
+Fixpoint dedupe_from (t : atom) (seen : bool) (root : list rchild) : list rchild :=
+  match root with
+  | [] => []
+  | c :: r => if has_tag t c then (if seen then dedupe_from t true r else c :: dedupe_from t true r)
+              else c :: dedupe_from t seen r
+  end.
+Definition dedupe (t : atom) (root : list rchild) : list rchild := dedupe_from t false root.
+
 (* one round of the library loop:
+     later elements of that name are removed;
      node = find(tag); absent: skip if arr is empty, else insert E(name) at library_loc;
      present and arr empty: remove it; for o in arr: o.save();
      syncChildren(node, [o.xmlnode for o in arr])  - the children become exactly those *)
 Definition lib_step (bad : N -> option exn) (loc : nat) (l : lib) (root : list rchild)
   : list rchild * lib * option exn :=
+  let root := dedupe (ltag l) root in
   match find_tag (ltag l) root, larr l with
   | None, [] => (root, l, None)
   | Some _, [] => (remove_first (ltag l) root, l, None)
@@ -159,8 +172,9 @@ Definition save_in (fc : faults) (s : state) : state * outcome unit :=
       let root3 := update_first a_scene clear_el (ensure_scene root1) in
       match scene_in fc (mscene m) with
       | None => (St m' root3, Ok tt)
-      | Some sid =>
-          if existsb (fun o => N.eqb (oid o) sid) (scenes_of m)
+      | Some (su, sid) =>
+          (* `if self.scene not in self.scenes`: membership of the object; the url carries its id *)
+          if existsb (fun o => N.eqb (ouid o) su) (scenes_of m)
           then (St m' (update_first a_scene (set_kids [(0%N, sid)]) root3), Ok tt)
           else (St m' root3, Raise DaeBrokenRef)      (* raised after the clear() *)
       end
@@ -250,5 +264,5 @@ Definition lib_synced (root : list rchild) (l : lib) : Prop :=
 Definition healthy (m : model) : Prop :=
   match mscene m with
   | None => True
-  | Some sid => existsb (fun o => N.eqb (oid o) sid) (scenes_of m) = true
+  | Some (su, _) => existsb (fun o => N.eqb (ouid o) su) (scenes_of m) = true
   end.
